@@ -73,6 +73,48 @@ for existing in ([], ['out.html'], ['out.html', 'out~00.html'], ['out.html', 'ou
 # ---------------------------------------------------------------------------------------------
 # create_backup: the backup copy / renamed file never replaces anything
 # ---------------------------------------------------------------------------------------------
+def _backup_scheme():
+    """Naming scheme of create_backup read from the current AST (so that re-writing the f-string as a concatenation,
+    or renaming locals, does not invalidate the sidecar): returns (counter local, text of the candidate-name expression
+    with the counter replaced by NUM, the same with base / extension replaced by os.path.splitext(filename)[0] / [1])."""
+    base, ext, counter = 'original_base_name', 'original_extension', 'counter'
+    expr = "f'{original_base_name}_{counter}{original_extension}'"
+    fi = get_repo().function('biogeme.tools.files.create_backup')
+    if fi is not None:
+        for n in ast.walk(fi.node):
+            if (isinstance(n, ast.Assign) and len(n.targets) == 1 and isinstance(n.targets[0], ast.Tuple)
+                    and len(n.targets[0].elts) == 2 and all(isinstance(e, ast.Name) for e in n.targets[0].elts)
+                    and isinstance(n.value, ast.Call) and ast.unparse(n.value.func).endswith('splitext')):
+                base, ext = (e.id for e in n.targets[0].elts)
+        loops = [n for n in ast.walk(fi.node) if isinstance(n, ast.While)]
+        if len(loops) == 1:
+            tested = None
+            for m in ast.walk(loops[0]):
+                if isinstance(m, ast.AugAssign) and isinstance(m.target, ast.Name):
+                    counter = m.target.id
+                if isinstance(m, ast.Call) and ast.unparse(m.func).endswith('exists') and m.args and isinstance(m.args[0], ast.Name):
+                    tested = m.args[0].id
+            for st in loops[0].body:
+                if isinstance(st, ast.Assign) and len(st.targets) == 1 and isinstance(st.targets[0], ast.Name) and st.targets[0].id == tested:
+                    expr = ast.unparse(st.value)
+
+    def subst(text, mapping):
+        tree = ast.parse(text, mode='eval')
+
+        class T(ast.NodeTransformer):
+            def visit_Name(self, node):
+                if node.id in mapping:
+                    return ast.parse(mapping[node.id], mode='eval').body
+                return node
+        return ast.unparse(T().visit(tree))
+
+    in_loop = subst(expr, {counter: 'NUM'})
+    at_exit = subst(expr, {counter: 'NUM', base: 'os.path.splitext(filename)[0]', ext: 'os.path.splitext(filename)[1]'})
+    return counter, in_loop, at_exit
+
+
+_BC, _BACKUP_LOOP, _BACKUP = _backup_scheme()
+
 contract('biogeme.tools.files.create_backup', 'C14',
          types={'filename': 'str', 'rename': 'bool'},
          returns='str | None',
@@ -80,7 +122,19 @@ contract('biogeme.tools.files.create_backup', 'C14',
              'new_name_was_free': "implies(old(fs_exists(filename)), result is not None and not fs_existed(typed(result, 'str')))",
              'nothing_to_back_up': "implies(not old(fs_exists(filename)), result is None)",
              'backup_exists': "implies(old(fs_exists(filename)), fs_is_file(typed(result, 'str')))",
+             # the code's own naming scheme (read from the AST: <base>_<n><ext>) with the SMALLEST n >= 1 whose name was free
+             # (round 3: the counter was not pinned)
+             'smallest_free_number': "implies(old(fs_exists(filename)), exists(lambda q: q >= 1 and typed(result, 'str') == "
+                                     + _BACKUP.replace('NUM', 'q') + " and forall(lambda j: implies(1 <= j and j < q, fs_existed("
+                                     + _BACKUP.replace('NUM', 'j') + ")), ty='int'), ty='int'))",
+             # the original is gone iff it was renamed (a copy keeps it)
+             'original_moved_iff_rename': "implies(old(fs_is_file(filename)), fs_is_file(filename) == (not rename))",
+             'only_backup_changes': "forall(lambda p: implies(p != filename and not same(p, result), fs_is_file(p) == old(fs_is_file(p))), ty='str')",
          },
+         invariants={1: {'clauses': {
+             'counter_from_one': f"{_BC} >= 1",
+             'smaller_taken': f"forall(lambda j: implies(1 <= j and j < {_BC}, fs_exists(" + _BACKUP_LOOP.replace('NUM', 'j') + ")), ty='int')",
+         }}},
          replay="""
 import os
 from biogeme.tools.files import create_backup
